@@ -383,4 +383,5 @@ def r_order_prefix(ctx):
 
 
 RULES = [r_order_prefix, r_name_injective, r_order_flow, r_global_use, r_no_module_state, driver.r_option_table, driver.r_solver_readonly,
-         lambda ctx: resource_constraints.r_loopvar(ctx, bases=(), solver=True), solution_rules.r_marker]
+         lambda ctx: resource_constraints.r_loopvar(ctx, bases=(), solver=True), solution_rules.r_marker,
+         lambda ctx: __import__("rules.buffers", fromlist=["x"]).r_sort_net(ctx)]
